@@ -1707,6 +1707,11 @@ class Encoder:
         if target is None or self.resolver is None or len(args) != 1:
             return None
         v = self.operand(state, args[0])
+        if isinstance(v, VAgg) and len(v.f) == 1 and isinstance(v.f.get(0), VInt) and target.strip() in INT_TYPES and (v.tag or "").startswith(("ri", "Constant")):
+            v = v.f[0]       # `impl From<riN<..>> for iM`: the ranged integer's value
+        if isinstance(v, VInt) and target.strip() in INT_TYPES:
+            # Into/From between primitive integers exists only where it is value-preserving
+            return ("value", self.wrap(v.t, v.lo, v.hi, target.strip(), tz=v.tz))
         tag = v.tag if isinstance(v, VAgg) else (v.ty if isinstance(v, VEnum) else None)
         tgt = strip_generics(target).split("::")[-1]
         if tag == tgt:
